@@ -753,6 +753,12 @@ struct ChainResult {
     bool exact = true; // every floating step was exact (so rounding order cannot matter)
     bool defaulted = false; // an out-of-range default layer answered
     std::vector<double> cell; // lattice coordinate the chain finally asks the storage for (no interpolator in the way)
+    // a linear interpolator in the chain: the lattice cells of the 2^n corners it blends
+    // (corners[0] is the lower one) and whether the coordinate it receives is a node (all
+    // fractional parts zero: weight 1 on corners[0], weight 0 on the others)
+    bool node = false;
+    Scal linear_scal = SC_NONE;
+    std::vector<std::vector<double>> corners;
 };
 inline double round_to(Scal s, double v)
 {
@@ -879,6 +885,37 @@ inline ChainResult chain_domain(const StackDesc &d, const ModelField &m, const d
             res.in_domain = a.in_domain && b2.in_domain && !a.defaulted && !b2.defaulted;
             if ((a.defaulted || b2.defaulted) && a.in_domain && b2.in_domain)
                 res.in_domain = true; // a default layer beneath answers for out-of-box corners
+            if (res.in_domain && !a.defaulted && !b2.defaulted && l.in_dims <= 4) {
+                // every corner's lattice cell, for the value oracle at interpolation nodes
+                StackDesc rest = d;
+                rest.depth = d.depth - (i + 1);
+                for (int j = 0; j < rest.depth; ++j)
+                    rest.layers[j] = d.layers[i + 1 + j];
+                rest.layout_depth = d.layout_depth - (i + 1);
+                ModelField mr;
+                mr.ext = m.ext;
+                mr.cfg.assign(m.cfg.begin() + i + 1, m.cfg.end());
+                bool all = true, node = true;
+                for (int k = 0; k < l.in_dims; ++k)
+                    if (x[k] != std::floor(x[k]))
+                        node = false;
+                std::vector<std::vector<double>> cs;
+                for (int n = 0; n < (1 << l.in_dims) && all; ++n) {
+                    std::vector<double> c(l.in_dims);
+                    for (int k = 0; k < l.in_dims; ++k)
+                        c[k] = std::floor(x[k]) + ((n >> k) & 1);
+                    ChainResult cr = chain_domain(rest, mr, c.data());
+                    if (!cr.in_domain || cr.defaulted || (int)cr.cell.size() != d.N)
+                        all = false;
+                    else
+                        cs.push_back(cr.cell);
+                }
+                if (all) {
+                    res.corners = cs;
+                    res.node = node;
+                    res.linear_scal = l.in_scal;
+                }
+            }
             return res;
         }
         case LK_STRIDED:
@@ -985,12 +1022,15 @@ inline bool sample_lookup(const StackDesc &d, const ModelField &m, Rng &r, std::
                 cur[k] = v;
             }
             break;
-        case LK_LINEAR:
+        case LK_LINEAR: {
+            bool at_node = r.chance(0.12); // all fractional parts zero: the value oracle applies
             for (int k = 0; k < l.in_dims; ++k) {
                 static const double fr[] = {0, 0, 0.25, 0.5, 0.75, 0.9990234375, 0.125};
                 double f = fr[r.below(7)];
                 if (r.chance(0.15))
                     f = l.in_scal == SC_F32 ? (double)std::nextafterf(1.0f, 0.0f) : std::nextafter(1.0, 0.0);
+                if (at_node)
+                    f = 0;
                 double c = cur[k];
                 // stay in a cell that has an upper neighbour when possible
                 if (r.chance(0.85) && c >= 1 && r.chance(0.5))
@@ -998,6 +1038,7 @@ inline bool sample_lookup(const StackDesc &d, const ModelField &m, Rng &r, std::
                 cur[k] = round_to(l.in_scal, c + f);
             }
             break;
+        }
         case LK_AFFINE: {
             int n = l.in_dims;
             // solve A x + t = cur by Gaussian elimination in double
@@ -1040,6 +1081,56 @@ inline bool sample_lookup(const StackDesc &d, const ModelField &m, Rng &r, std::
     return true;
 }
 
+
+// ---------------------------------------------------------------- value oracle at interpolation nodes
+// Linear interpolation reproduces the lattice value at a node: the weights are exactly 1 and
+// 0, 0 * finite = 0 and v + 0 = v in IEEE arithmetic, subnormal v included. Judged only if all
+// blended corners hold finite values and the interpolator does not compute in a narrower type
+// than the stored one. want[j] = stored bits of component j at the node. (The sign of a zero
+// result is not judged: -0 + +0 = +0.)
+inline bool linear_node_expectation(const StackDesc &d, const ModelField &m, const ChainResult &cr, uint64_t *want)
+{
+    if (!cr.node || cr.corners.empty() || d.shape == SHAPE_NONE)
+        return false;
+    if (cr.linear_scal == SC_F32 && d.storage == SC_F64)
+        return false;
+    size_t lin0 = 0;
+    for (size_t n = 0; n < cr.corners.size(); ++n) {
+        size_t lin = 0;
+        for (int k = 0; k < d.N; ++k) {
+            if (cr.corners[n][k] < 0 || cr.corners[n][k] >= (double)m.ext[k])
+                return false;
+            lin = lin * m.ext[k] + (size_t)cr.corners[n][k];
+        }
+        if ((lin + 1) * (size_t)d.M > m.vals.size())
+            return false;
+        for (int j = 0; j < d.M; ++j) {
+            uint64_t b = m.vals[lin * d.M + j];
+            double v = d.storage == SC_F32 ? (double)bits_f32(b) : bits_f64(b);
+            if (!std::isfinite(v))
+                return false;
+        }
+        if (n == 0)
+            lin0 = lin;
+    }
+    for (int j = 0; j < d.M; ++j)
+        want[j] = m.vals[lin0 * d.M + j];
+    return true;
+}
+// does a looked-up component (bits in the view's output scalar type) equal the stored one?
+inline bool same_value_modulo_zero_sign(uint64_t got, Scal got_scal, uint64_t want, Scal want_scal, bool &judged)
+{
+    judged = true;
+    double g = got_scal == SC_F32 ? (double)bits_f32(got) : bits_f64(got);
+    double w = want_scal == SC_F32 ? (double)bits_f32(want) : bits_f64(want);
+    if (got_scal == SC_F32 && want_scal == SC_F64) {
+        judged = false; // a narrowing cast on the way out
+        return true;
+    }
+    if (g == 0 && w == 0)
+        return true;
+    return g == w && !std::isnan(g);
+}
 
 // ---------------------------------------------------------------- narrowing oracle (C07)
 // The float nearest to d, ties to even, by comparing distances to the
